@@ -52,6 +52,13 @@ pub fn engines() -> Vec<EngineDef> {
         },
         EngineDef {
             isolate: false,
+            name: "session-heap",
+            property: "C03",
+            scenarios: crate::engine_session::scenarios_c03,
+            scenario: crate::engine_session::scenario_c03,
+        },
+        EngineDef {
+            isolate: false,
             name: "gc-sim",
             property: "C03",
             scenarios: crate::engine_gc::scenarios,
